@@ -147,7 +147,8 @@ def check(tier, seed):
     err2, model = run_model(exe, hs) if ok else ("no driver", None)
     if err or err2:
         ck.obligation("correspondence run", False, (err or err2)[:1500])
-        ck.violation({"kind": "harness", "log": err or err2, "broken": "C06 harness"}, "harness failed: " + (err or err2)[:300], no_input=True)
+        if not (err and V.crash_violation(ck, err, os.path.join(V.WORK, "c06_main.out"), hs, lambda h: run_impl([h], "crash")[0], "StreamForwarder harness")):
+            ck.violation({"kind": "harness", "log": err or err2, "broken": "C06 harness"}, "harness failed: " + (err or err2)[:300], no_input=True)
         return ck.finish()
     diffs, mon = [], []
     distinct = set()
